@@ -15,6 +15,12 @@ CLAIMS = {
  "C03": ("structural necessary conditions decided over all paths and call sites: guard cut-sets on Authorize and on every Authorize call site, permission table, Validate conjuncts, tenant binding of ssids; the bit-path/hash arithmetic of key targets is not decided",
          "trusts go/types, go/ssa (x/tools v0.29.0) and the hand-confirmed rule tables in checker/rules; accessor purity of security.Key",
          "static analysis: SSA guard cut-sets (dominance/reachability), call-site table"),
+ "C04": ("structural necessary conditions decided on every path of the merge code: LWW kernel of both crdt.Map implementations (overwrite only with the remote time, only under strict local<remote, always then; no aliasing of the remote slice), Add/Del guarded by the clock, value predicates as comparison normal forms (add bias on ties), accessor byte ranges, codec wire layouts of both backends, Volatile lock discipline incl. both locks in Merge; commutativity/associativity over histories is not decided",
+         "trusts go/ssa; purity of crdt.Value accessors; kelindar/binary string/slice layout",
+         "static analysis: SSA guard cut-sets two-sided (only-if + if), comparison normal forms, codec op-sequence extraction, lockset dataflow"),
+ "C13": ("structural necessary conditions: delta side of both merge kernels (zero exactly when not new, delete iff IsZero, keep otherwise), State.Merge nil/delta decision and accumulation over all subsets, pass-through of the delta by Swarm.merge/OnGossip/OnGossipBroadcast, and the mesh.GossipData.Merge return-value contract checked for every implementation (State.Merge violates it: recorded known finding); relay termination is not decided",
+         "trusts go/ssa; the mesh contract was read from the vendored weaveworks/mesh source",
+         "static analysis: SSA guard cut-sets two-sided, return-value provenance, interface-contract rule"),
 }
 
 NOT_YET = "no sound structural rule implemented yet in this static-analysis framework (see DESIGN.md §4 for the clauses planned); behavioural clauses quantify over runtime values"
